@@ -463,8 +463,11 @@ def _check_row(ctx, get_module, row, rule, cfg):
                     problems.append(("broken", "under '%s' a successful return at %s is neither excluded nor confirmed for a concrete value (the conditions on the path correlate bits of the "
                                      "argument that the interval domain keeps apart)" % (label, where), t))
                     continue
-                kindp = "violation" if singleton(av) == 0 else "violation-maybe"
-                problems.append((kindp, "G1: with %s%s the function can return E_SUCCESS at %s" % (label, (" (e.g. %s)" % wit) if wit else "", where), t))
+                if singleton(av) != 0:
+                    # the returned value is a set that merely contains 0 (e.g. loaded from memory the engine does not track): success is not excluded, but not shown either
+                    problems.append(("broken", "under '%s' the value returned at %s is not determined (%s): success is neither excluded nor shown" % (label, where, explore.fmt(av)), t))
+                    continue
+                problems.append(("violation", "G1: with %s%s the function can return E_SUCCESS at %s" % (label, (" (e.g. %s)" % wit) if wit else "", where), t))
             sv = singleton(av)
             if sv is not None:
                 codes.add(sv)
